@@ -607,7 +607,8 @@ def run_worker(sc: Dict[str, Any], register: Optional[Callable[..., None]] = Non
         max_tasks_to_execute=sc.get("N"),
         wait_tasks_timeout=sc.get("W"),
         propagate_exceptions=bool(sc.get("propagate", True)),
-        ack_type=AcknowledgeType(sc.get("ack_type", "when_saved")),
+        # the acknowledge type as the enum member or as its plain string value (it is a str enum: both select the same point)
+        ack_type=(str(sc.get("ack_type", "when_saved")) if sc.get("ack_type_as_str") else AcknowledgeType(sc.get("ack_type", "when_saved"))),  # type: ignore[arg-type]
         run_startup=False,
     )
     res: Dict[str, Any] = {"returned": False, "listen_exc": None, "deadlock": False}
